@@ -14,6 +14,7 @@
     symmetric for −Inf; +Inf ≤ +Inf and +Inf ≥ +Inf hold, +Inf < +Inf does not.
 -/
 import Gozod.Proofs.C16Dispatch
+import Gozod.Model.NumFloat
 
 set_option linter.unusedSimpArgs false
 set_option maxRecDepth 100000
@@ -21,27 +22,31 @@ set_option exponentiation.threshold 2000
 namespace Gozod.C16M
 open Gozod Gozod.C16D Gozod.Gen.NumDispatch
 
-def opOfCall : String → Option CmpOp
-  | "validate.Lt(payload.Value(), value)" => some .lt
-  | "validate.Lte(payload.Value(), value)" => some .lte
-  | "validate.Gt(payload.Value(), value)" => some .gt
-  | "validate.Gte(payload.Value(), value)" => some .gte
-  | _ => none
+/-- What the `validate` call a check constructor ends in decides, on the value `x` and the operand `b`
+    the constructor received: the model's `implCmp` for the four comparisons, the model's
+    `NumFloat.multipleOfNum` (exact integer branch / ε-rule) for `MultipleOf`. -/
+def callHolds : String → Num → Num → Option Bool
+  | "validate.Lt(payload.Value(), value)", x, b => some (implCmp .lt x b)
+  | "validate.Lte(payload.Value(), value)", x, b => some (implCmp .lte x b)
+  | "validate.Gt(payload.Value(), value)", x, b => some (implCmp .gt x b)
+  | "validate.Gte(payload.Value(), value)", x, b => some (implCmp .gte x b)
+  | "validate.MultipleOf(payload.Value(), divisor)", x, b => some (NumFloat.multipleOfNum x b)
+  | _, _, _ => none
 
 /-- The verdict of schema method `m` on the value `x`, with the method's own bound `arg`, as the
     regenerated tables wire it: every `validate` call of the chain must hold. `lit` turns a
     literal bound into the operand the method receives (`int64(n)` / `float64(n)`). -/
-def methodVerdict (tbl : List (String × String × List (Bool × String × Option Int))) (lit : Int → Num)
+def methodVerdict (tbl : List (String × String × List (Bool × String × Dispatch.Arg))) (lit : Int → Num)
     (m : String) (x arg : Num) : Option Bool :=
   match resolve tbl 4 m none with
   | none => none
   | some calls => calls.foldr (fun c acc => do
       let rest ← acc
-      let op ← opOfCall c.1
       let b := match c.2 with
         | some n => lit n
         | none => arg
-      pure (implCmp op x b && rest)) (some true)
+      let v ← callHolds c.1 x b
+      pure (v && rest)) (some true)
 
 /-- The documented meaning of each method. -/
 def methodSpec (lit : Int → Num) (m : String) (x arg : Num) : Option Bool :=
@@ -73,37 +78,37 @@ theorem c16_float_methods_exact (m : String) (hm : m ∈ cmpMethods) (x b : F) :
   rcases hm with rfl | rfl | rfl | rfl | rfl | rfl | rfl | rfl | rfl | rfl | rfl
   · have hr := (methods_table.1 ("Min", [("validate.Gte(payload.Value(), value)", none)]) (by simp [documented])).2
     simp only [] at hr
-    simp [methodVerdict, hr, opOfCall, methodSpec, flit, C16.c16_float_cmp]
+    simp [methodVerdict, hr, callHolds, methodSpec, flit, C16.c16_float_cmp]
   · have hr := (methods_table.1 ("Max", [("validate.Lte(payload.Value(), value)", none)]) (by simp [documented])).2
     simp only [] at hr
-    simp [methodVerdict, hr, opOfCall, methodSpec, flit, C16.c16_float_cmp]
+    simp [methodVerdict, hr, callHolds, methodSpec, flit, C16.c16_float_cmp]
   · have hr := (methods_table.1 ("Gt", [("validate.Gt(payload.Value(), value)", none)]) (by simp [documented])).2
     simp only [] at hr
-    simp [methodVerdict, hr, opOfCall, methodSpec, flit, C16.c16_float_cmp]
+    simp [methodVerdict, hr, callHolds, methodSpec, flit, C16.c16_float_cmp]
   · have hr := (methods_table.1 ("Gte", [("validate.Gte(payload.Value(), value)", none)]) (by simp [documented])).2
     simp only [] at hr
-    simp [methodVerdict, hr, opOfCall, methodSpec, flit, C16.c16_float_cmp]
+    simp [methodVerdict, hr, callHolds, methodSpec, flit, C16.c16_float_cmp]
   · have hr := (methods_table.1 ("Lt", [("validate.Lt(payload.Value(), value)", none)]) (by simp [documented])).2
     simp only [] at hr
-    simp [methodVerdict, hr, opOfCall, methodSpec, flit, C16.c16_float_cmp]
+    simp [methodVerdict, hr, callHolds, methodSpec, flit, C16.c16_float_cmp]
   · have hr := (methods_table.1 ("Lte", [("validate.Lte(payload.Value(), value)", none)]) (by simp [documented])).2
     simp only [] at hr
-    simp [methodVerdict, hr, opOfCall, methodSpec, flit, C16.c16_float_cmp]
+    simp [methodVerdict, hr, callHolds, methodSpec, flit, C16.c16_float_cmp]
   · have hr := (methods_table.1 ("Positive", [("validate.Gt(payload.Value(), value)", some 0)]) (by simp [documented])).2
     simp only [] at hr
-    simp [methodVerdict, hr, opOfCall, methodSpec, flit, C16.c16_float_cmp]
+    simp [methodVerdict, hr, callHolds, methodSpec, flit, C16.c16_float_cmp]
   · have hr := (methods_table.1 ("Negative", [("validate.Lt(payload.Value(), value)", some 0)]) (by simp [documented])).2
     simp only [] at hr
-    simp [methodVerdict, hr, opOfCall, methodSpec, flit, C16.c16_float_cmp]
+    simp [methodVerdict, hr, callHolds, methodSpec, flit, C16.c16_float_cmp]
   · have hr := (methods_table.1 ("NonNegative", [("validate.Gte(payload.Value(), value)", some 0)]) (by simp [documented])).2
     simp only [] at hr
-    simp [methodVerdict, hr, opOfCall, methodSpec, flit, C16.c16_float_cmp]
+    simp [methodVerdict, hr, callHolds, methodSpec, flit, C16.c16_float_cmp]
   · have hr := (methods_table.1 ("NonPositive", [("validate.Lte(payload.Value(), value)", some 0)]) (by simp [documented])).2
     simp only [] at hr
-    simp [methodVerdict, hr, opOfCall, methodSpec, flit, C16.c16_float_cmp]
+    simp [methodVerdict, hr, callHolds, methodSpec, flit, C16.c16_float_cmp]
   · have hr := (methods_table.1 ("Safe", [("validate.Gte(payload.Value(), value)", some (-(2 ^ 53 - 1))), ("validate.Lte(payload.Value(), value)", some (2 ^ 53 - 1))]) (by simp [documented])).2
     simp only [] at hr
-    simp [methodVerdict, hr, opOfCall, methodSpec, flit, C16.c16_float_cmp]
+    simp [methodVerdict, hr, callHolds, methodSpec, flit, C16.c16_float_cmp]
 
 /-- **Every comparison method of the ten integer schemas, on every in-range input and every
     int64 bound, decides the comparison of the integers** (sign shorthands: against 0). -/
@@ -121,59 +126,101 @@ theorem c16_int_methods_exact (m : String) (hm : m ∈ cmpMethods) (t : IntTy) (
   rcases hm with rfl | rfl | rfl | rfl | rfl | rfl | rfl | rfl | rfl | rfl | rfl
   · have hr := (methods_table.1 ("Min", [("validate.Gte(payload.Value(), value)", none)]) (by simp [documented])).1
     simp only [] at hr
-    simp [methodVerdict, hr, opOfCall, methodSpec, ilit, C16.c16_cmp _ _ _ hx hb, C16.c16_cmp _ _ (.i 0) hx w0,
+    simp [methodVerdict, hr, callHolds, methodSpec, ilit, C16.c16_cmp _ _ _ hx hb, C16.c16_cmp _ _ (.i 0) hx w0,
       C16.c16_cmp _ _ (.i (-(2 ^ 53 - 1))) hx wlo, C16.c16_cmp _ _ (.i (2 ^ 53 - 1)) hx whi,
       C16.c16_cmp _ _ (.i (-9007199254740991)) hx wlo', C16.c16_cmp _ _ (.i 9007199254740991) hx whi']
   · have hr := (methods_table.1 ("Max", [("validate.Lte(payload.Value(), value)", none)]) (by simp [documented])).1
     simp only [] at hr
-    simp [methodVerdict, hr, opOfCall, methodSpec, ilit, C16.c16_cmp _ _ _ hx hb, C16.c16_cmp _ _ (.i 0) hx w0,
+    simp [methodVerdict, hr, callHolds, methodSpec, ilit, C16.c16_cmp _ _ _ hx hb, C16.c16_cmp _ _ (.i 0) hx w0,
       C16.c16_cmp _ _ (.i (-(2 ^ 53 - 1))) hx wlo, C16.c16_cmp _ _ (.i (2 ^ 53 - 1)) hx whi,
       C16.c16_cmp _ _ (.i (-9007199254740991)) hx wlo', C16.c16_cmp _ _ (.i 9007199254740991) hx whi']
   · have hr := (methods_table.1 ("Gt", [("validate.Gt(payload.Value(), value)", none)]) (by simp [documented])).1
     simp only [] at hr
-    simp [methodVerdict, hr, opOfCall, methodSpec, ilit, C16.c16_cmp _ _ _ hx hb, C16.c16_cmp _ _ (.i 0) hx w0,
+    simp [methodVerdict, hr, callHolds, methodSpec, ilit, C16.c16_cmp _ _ _ hx hb, C16.c16_cmp _ _ (.i 0) hx w0,
       C16.c16_cmp _ _ (.i (-(2 ^ 53 - 1))) hx wlo, C16.c16_cmp _ _ (.i (2 ^ 53 - 1)) hx whi,
       C16.c16_cmp _ _ (.i (-9007199254740991)) hx wlo', C16.c16_cmp _ _ (.i 9007199254740991) hx whi']
   · have hr := (methods_table.1 ("Gte", [("validate.Gte(payload.Value(), value)", none)]) (by simp [documented])).1
     simp only [] at hr
-    simp [methodVerdict, hr, opOfCall, methodSpec, ilit, C16.c16_cmp _ _ _ hx hb, C16.c16_cmp _ _ (.i 0) hx w0,
+    simp [methodVerdict, hr, callHolds, methodSpec, ilit, C16.c16_cmp _ _ _ hx hb, C16.c16_cmp _ _ (.i 0) hx w0,
       C16.c16_cmp _ _ (.i (-(2 ^ 53 - 1))) hx wlo, C16.c16_cmp _ _ (.i (2 ^ 53 - 1)) hx whi,
       C16.c16_cmp _ _ (.i (-9007199254740991)) hx wlo', C16.c16_cmp _ _ (.i 9007199254740991) hx whi']
   · have hr := (methods_table.1 ("Lt", [("validate.Lt(payload.Value(), value)", none)]) (by simp [documented])).1
     simp only [] at hr
-    simp [methodVerdict, hr, opOfCall, methodSpec, ilit, C16.c16_cmp _ _ _ hx hb, C16.c16_cmp _ _ (.i 0) hx w0,
+    simp [methodVerdict, hr, callHolds, methodSpec, ilit, C16.c16_cmp _ _ _ hx hb, C16.c16_cmp _ _ (.i 0) hx w0,
       C16.c16_cmp _ _ (.i (-(2 ^ 53 - 1))) hx wlo, C16.c16_cmp _ _ (.i (2 ^ 53 - 1)) hx whi,
       C16.c16_cmp _ _ (.i (-9007199254740991)) hx wlo', C16.c16_cmp _ _ (.i 9007199254740991) hx whi']
   · have hr := (methods_table.1 ("Lte", [("validate.Lte(payload.Value(), value)", none)]) (by simp [documented])).1
     simp only [] at hr
-    simp [methodVerdict, hr, opOfCall, methodSpec, ilit, C16.c16_cmp _ _ _ hx hb, C16.c16_cmp _ _ (.i 0) hx w0,
+    simp [methodVerdict, hr, callHolds, methodSpec, ilit, C16.c16_cmp _ _ _ hx hb, C16.c16_cmp _ _ (.i 0) hx w0,
       C16.c16_cmp _ _ (.i (-(2 ^ 53 - 1))) hx wlo, C16.c16_cmp _ _ (.i (2 ^ 53 - 1)) hx whi,
       C16.c16_cmp _ _ (.i (-9007199254740991)) hx wlo', C16.c16_cmp _ _ (.i 9007199254740991) hx whi']
   · have hr := (methods_table.1 ("Positive", [("validate.Gt(payload.Value(), value)", some 0)]) (by simp [documented])).1
     simp only [] at hr
-    simp [methodVerdict, hr, opOfCall, methodSpec, ilit, C16.c16_cmp _ _ _ hx hb, C16.c16_cmp _ _ (.i 0) hx w0,
+    simp [methodVerdict, hr, callHolds, methodSpec, ilit, C16.c16_cmp _ _ _ hx hb, C16.c16_cmp _ _ (.i 0) hx w0,
       C16.c16_cmp _ _ (.i (-(2 ^ 53 - 1))) hx wlo, C16.c16_cmp _ _ (.i (2 ^ 53 - 1)) hx whi,
       C16.c16_cmp _ _ (.i (-9007199254740991)) hx wlo', C16.c16_cmp _ _ (.i 9007199254740991) hx whi']
   · have hr := (methods_table.1 ("Negative", [("validate.Lt(payload.Value(), value)", some 0)]) (by simp [documented])).1
     simp only [] at hr
-    simp [methodVerdict, hr, opOfCall, methodSpec, ilit, C16.c16_cmp _ _ _ hx hb, C16.c16_cmp _ _ (.i 0) hx w0,
+    simp [methodVerdict, hr, callHolds, methodSpec, ilit, C16.c16_cmp _ _ _ hx hb, C16.c16_cmp _ _ (.i 0) hx w0,
       C16.c16_cmp _ _ (.i (-(2 ^ 53 - 1))) hx wlo, C16.c16_cmp _ _ (.i (2 ^ 53 - 1)) hx whi,
       C16.c16_cmp _ _ (.i (-9007199254740991)) hx wlo', C16.c16_cmp _ _ (.i 9007199254740991) hx whi']
   · have hr := (methods_table.1 ("NonNegative", [("validate.Gte(payload.Value(), value)", some 0)]) (by simp [documented])).1
     simp only [] at hr
-    simp [methodVerdict, hr, opOfCall, methodSpec, ilit, C16.c16_cmp _ _ _ hx hb, C16.c16_cmp _ _ (.i 0) hx w0,
+    simp [methodVerdict, hr, callHolds, methodSpec, ilit, C16.c16_cmp _ _ _ hx hb, C16.c16_cmp _ _ (.i 0) hx w0,
       C16.c16_cmp _ _ (.i (-(2 ^ 53 - 1))) hx wlo, C16.c16_cmp _ _ (.i (2 ^ 53 - 1)) hx whi,
       C16.c16_cmp _ _ (.i (-9007199254740991)) hx wlo', C16.c16_cmp _ _ (.i 9007199254740991) hx whi']
   · have hr := (methods_table.1 ("NonPositive", [("validate.Lte(payload.Value(), value)", some 0)]) (by simp [documented])).1
     simp only [] at hr
-    simp [methodVerdict, hr, opOfCall, methodSpec, ilit, C16.c16_cmp _ _ _ hx hb, C16.c16_cmp _ _ (.i 0) hx w0,
+    simp [methodVerdict, hr, callHolds, methodSpec, ilit, C16.c16_cmp _ _ _ hx hb, C16.c16_cmp _ _ (.i 0) hx w0,
       C16.c16_cmp _ _ (.i (-(2 ^ 53 - 1))) hx wlo, C16.c16_cmp _ _ (.i (2 ^ 53 - 1)) hx whi,
       C16.c16_cmp _ _ (.i (-9007199254740991)) hx wlo', C16.c16_cmp _ _ (.i 9007199254740991) hx whi']
   · have hr := (methods_table.1 ("Safe", [("validate.Gte(payload.Value(), value)", some (-(2 ^ 53 - 1))), ("validate.Lte(payload.Value(), value)", some (2 ^ 53 - 1))]) (by simp [documented])).1
     simp only [] at hr
-    simp [methodVerdict, hr, opOfCall, methodSpec, ilit, C16.c16_cmp _ _ _ hx hb, C16.c16_cmp _ _ (.i 0) hx w0,
+    simp [methodVerdict, hr, callHolds, methodSpec, ilit, C16.c16_cmp _ _ _ hx hb, C16.c16_cmp _ _ (.i 0) hx w0,
       C16.c16_cmp _ _ (.i (-(2 ^ 53 - 1))) hx wlo, C16.c16_cmp _ _ (.i (2 ^ 53 - 1)) hx whi,
       C16.c16_cmp _ _ (.i (-9007199254740991)) hx wlo', C16.c16_cmp _ _ (.i 9007199254740991) hx whi']
+
+/-! ### MultipleOf and Step (round 4c, audit M10: "method-level MultipleOf and Step are not in `cmpMethods`") -/
+
+def mulMethods : List String := ["MultipleOf", "Step"]
+
+/-- **`MultipleOf` / `Step` of the ten integer schemas, as the regenerated tables wire them, decide integer
+    divisibility** — for every in-range input and every int64 divisor (zero divisor: nothing passes). -/
+theorem c16_int_methods_multiple_exact (m : String) (hm : m ∈ mulMethods) (t : IntTy) (v d : Int)
+    (hv : t.inRange v) (hd : IntTy.i64.inRange d) :
+    methodVerdict integerMethods ilit m (Num.ofInt t v) (.i d) = some (specMultipleOfInt v d) := by
+  have hx : C16.Num.wf (Num.ofInt t v) := C16.ofInt_wf t v hv
+  have hb : C16.Num.wf (.i d) := hd
+  have hexact := C16.multipleOfInts_exact (Num.ofInt t v) (.i d) hx hb (C16.ofInt_isInt t v) rfl
+  rw [C16.ofInt_ival] at hexact
+  have hmul : NumFloat.multipleOfNum (Num.ofInt t v) (.i d) = multipleOfInts (Num.ofInt t v) (.i d) := by
+    unfold Num.ofInt; split <;> rfl
+  simp only [mulMethods, List.mem_cons, List.mem_nil_iff, or_false] at hm
+  rcases hm with rfl | rfl
+  · have hr := (methods_table.1 ("MultipleOf", [("validate.MultipleOf(payload.Value(), divisor)", none)]) (by simp [documented])).1
+    simp only [] at hr
+    simp [methodVerdict, hr, callHolds, hmul, hexact, C16.ival]
+  · have hr := (methods_table.1 ("Step", [("validate.MultipleOf(payload.Value(), divisor)", none)]) (by simp [documented])).1
+    simp only [] at hr
+    simp [methodVerdict, hr, callHolds, hmul, hexact, C16.ival]
+
+/-- `MultipleOf` / `Step` of the float schemas end in the documented ε-rule (`NumFloat.floatMultipleOf`; what that
+    rule guarantees is `C16F.c16_float_multiple_complete` / `c16_float_multiple_sound_bound`). -/
+theorem c16_float_methods_multiple (m : String) (hm : m ∈ mulMethods) (x d : F) :
+    methodVerdict floatMethods flit m (.f x) (.f d) = some (NumFloat.floatMultipleOf x d) := by
+  simp only [mulMethods, List.mem_cons, List.mem_nil_iff, or_false] at hm
+  rcases hm with rfl | rfl
+  · have hr := (methods_table.1 ("MultipleOf", [("validate.MultipleOf(payload.Value(), divisor)", none)]) (by simp [documented])).2
+    simp only [] at hr
+    simp [methodVerdict, hr, callHolds, NumFloat.multipleOfNum, NumFloat.numToF]
+  · have hr := (methods_table.1 ("Step", [("validate.MultipleOf(payload.Value(), divisor)", none)]) (by simp [documented])).2
+    simp only [] at hr
+    simp [methodVerdict, hr, callHolds, NumFloat.multipleOfNum, NumFloat.numToF]
+
+example : methodVerdict integerMethods ilit "Step" (Num.ofInt .i64 10000005) (.i 10000000) = some false ∧
+    methodVerdict integerMethods ilit "MultipleOf" (Num.ofInt .u64 (2 ^ 64 - 2)) (.i (-2)) = some true ∧
+    methodVerdict integerMethods ilit "MultipleOf" (Num.ofInt .i8 0) (.i 0) = some false := by
+  decide
 
 /-- On integers the specification is the order of the integers. -/
 theorem specCmp_int (op : CmpOp) (t : IntTy) (v b : Int) (hv : t.inRange v) (hb : IntTy.i64.inRange b) :
